@@ -48,8 +48,15 @@ def gen_configurator(rng, quick=True, int_leaf=False, nested=True, top_items=Fal
             if nested and depth > 0 and rng.random() < nest_p:
                 # choices nested in choices — half of the time a defaulted choice below a (defaulted) choice
                 args.append(rule(depth - 1, ("ccAnyD", "ccXorD")) if rng.random() < 0.5 else rule(depth - 1))
+            if nested and depth > 0 and rng.random() < 0.12:
+                # a choice between exactly two alternatives of which at least one is a rule of its own (an item or a whole
+                # sub-rule; two sub-rules) — with a default that names the item, names nothing that is there, or without one
+                plain = ("AtMost", "All", "Any", "AtLeast")
+                args = [rule(depth - 1, plain), rule(depth - 1, plain)] if rng.random() < 0.4 else group(1) + [rule(depth - 1, plain)]
             a.update(c=kind[:5], args=args)
-            if kind.endswith("D"):
+            if kind.endswith("D") and not [x for x in args if x["c"] in ("str", "var")]:
+                a["default"] = ["zz-none"]
+            elif kind.endswith("D"):
                 cands = [x["id"] for x in args if x["c"] in ("str", "var")]
                 containing = [d for d in cands if any(o != d and o in d for o in cands)]
                 # (when ids contain one another, mostly the longer one is the default)
